@@ -32,6 +32,14 @@ func craftedShapes() []crafted {
 				{Kind: "index", Edges: []vh.Edge{e("manifest", 4), e("manifest", 5)}}},
 			Ext: []int{1},
 		},
+		{ // two different blobs under one file name in two manifests below one index: a file store may refuse the graph,
+			// it must not report success with one of the blobs missing
+			Name: "samename",
+			Nodes: []vh.NodeSpec{{}, blob, blob, blob,
+				{Kind: "manifest", Edges: []vh.Edge{e("config", 3), et("layer", 1, "app.bin")}},
+				{Kind: "manifest", Edges: []vh.Edge{e("config", 3), et("layer", 2, "app.bin")}},
+				{Kind: "index", Edges: []vh.Edge{e("manifest", 4), e("manifest", 5)}}},
+		},
 		{ // two roots (no common ancestor) sharing a layer: R1 -> C1, L; R2 -> C2, L
 			Name: "tworoots",
 			Nodes: []vh.NodeSpec{{}, blob, blob, blob,
